@@ -13,9 +13,9 @@ Two layers.
 * A `CRat`/`Rat`-specific **wrapper** layer with the float-threshold logic of the code as it is:
   the Hermitian guards `_check_*_mat`, `_truncate_hs`, `is_tp`, `is_cp`, `calc_proj_ineq_constraint`.
 
-The model mirrors the code *as it is*: `calcJMat` enumerates `basis[1:]` with `delta = 1` on the first
-enumerated element (§5-D12), `jPartCbFromJump` uses the jump operators themselves (not `c†c`).
-`calcJMatFixed` is the proposed patch (full basis), used by the `_partial` theorems.
+The model mirrors the code *as it is*: `calcJMat` enumerates the whole basis with `delta = 1` on the identity
+element (D12 repaired upstream by `fix:` 8192d10), `jPartCbFromJump` uses the jump operators themselves
+(not `c†c`, D13).
 -/
 namespace QM.C18
 open QM
@@ -139,13 +139,9 @@ def jCoef (B : Basis K d) (L : Mat K (d * d) (d * d)) (a : Fin (d * d)) (first :
 def calcHMatCb (B : Basis K d) (L : Mat K (d * d) (d * d)) : Mat K d d :=
   msum (d * d) fun a => (B.get a).smul (hCoef B L a)
 
-/-- `calc_j_mat` as coded: `for alpha, B_alpha in enumerate(basis[1:])`, `delta = 1 if alpha == 0`:
-the identity component is never visited and the coefficient of `basis[1]` is halved. -/
+/-- `calc_j_mat` on the comp-basis generator: `for alpha, B_alpha in enumerate(basis)`,
+`delta = 1 if alpha == 0` (the identity element gets the factor `1/(4 dim)`, every other one `1/(2 dim)`). -/
 def calcJMatCb (B : Basis K d) (L : Mat K (d * d) (d * d)) : Mat K d d :=
-  msum (d * d - 1) fun a => (B.get (suc a)).smul (jCoef B L (suc a) (a.val = 0))
-
-/-- proposed patch of `calc_j_mat`: enumerate the whole basis (`delta` on the identity element). -/
-def calcJMatFixedCb (B : Basis K d) (L : Mat K (d * d) (d * d)) : Mat K d d :=
   msum (d * d) fun a => (B.get a).smul (jCoef B L a (a.val = 0))
 
 /-- `calc_k_mat`: `k[α,β] = tr(L_cb · B_{α+1} ⊗ conj B_{β+1})` -/
@@ -155,8 +151,6 @@ def calcKMatCb (B : Basis K d) (L : Mat K (d * d) (d * d)) : Mat K (d * d - 1) (
 /-- the methods start with `lindbladian_cb = convert_hs(self.hs, basis, comp_basis)` -/
 def calcHMat (B : Basis K d) (hs : Mat K (d * d) (d * d)) : Mat K d d := calcHMatCb B (toComp B hs)
 def calcJMat (B : Basis K d) (hs : Mat K (d * d) (d * d)) : Mat K d d := calcJMatCb B (toComp B hs)
-def calcJMatFixed (B : Basis K d) (hs : Mat K (d * d) (d * d)) : Mat K d d :=
-  calcJMatFixedCb B (toComp B hs)
 def calcKMat (B : Basis K d) (hs : Mat K (d * d) (d * d)) : Mat K (d * d - 1) (d * d - 1) :=
   calcKMatCb B (toComp B hs)
 
@@ -433,7 +427,6 @@ def handle (args : List String) : Option String :=
       match op with
       | "hmat" => some s!"ok {showCMat (calcHMat B e)}"
       | "jmat" => some s!"ok {showCMat (calcJMat B e)}"
-      | "jmatfix" => some s!"ok {showCMat (calcJMatFixed B e)}"
       | "kmat" => some s!"ok {showCMat (calcKMat B e)}"
       | "tocomp" => some s!"ok {showCMat (toComp B e)}"
       | "hpartcb" => some s!"ok {showCMat (hPart (calcHMat B e))}"
